@@ -16,7 +16,11 @@ SPEC = {
              "MaxAttempts and at 1000 node slots; single transient storage fault (schedule code 2: the storage call of that step, in "
              "the shared tier for hybrid stores, returns an error): every fault position x every schedule of length 4/5 x "
              "2-3 nodes each with its own hybrid store over one shared tier, plus one random fault in a third of the random "
-             "histories; free-running contention without gates; non-trivial = has threads; distinct = "
+             "histories; release clause: a further Release() of an allocator that already released its id, driven through the real "
+             "code, every schedule of length 6 over three nodes on every store kind (a release-own must answer an unreleased "
+             "hand-out to the same caller); free-running contention without gates, incl. 700 rounds (quick) of N in {2,4,8} generators/allocators "
+             "released behind a spin barrier onto candidates whose pre-existing markers are absent / live / expired-not-yet-swept "
+             "(1 ms TTL, real 5 ms wait) on memory, hybrid(memory), redis, hybrid(redis) and the double; non-trivial = has threads; distinct = "
              "distinct case string"),
     "trusted_base": [
         "Lean 4.33 kernel; axioms propext, Classical.choice, Quot.sound only (audited per theorem on every run)",
@@ -37,6 +41,8 @@ SPEC = {
         "not modelled); faults hit the shared tier only (node-local caches do not fail); a caller does not retry a failed Release",
         "fallback path (store without SetNX) guarantees uniqueness for one generator instance only: known finding "
         "fallback-multi-instance; no store built by the server factory lacks SetNX (checked by the caps case)",
+        "a Release() retried after a FAILED Release is not driven: on the unchanged code it panics (close of closed stopCh), "
+        "which is a robustness defect outside this property",
         "GenerateUniqueID wrappers (id_manager.go) are compositions of Generate and Release of the own id by one caller and "
         "are covered as such histories; their external checkFunc is not modelled",
     ],
